@@ -13,6 +13,7 @@
                 variable and the alias list removed, on a per-alias copy.
  R6 no value filter: comprehension filters in the converters are key tests, never the truthiness of the converted item.
  R7 range round trip: list <-> keyed form of a range keeps every position (Span and SI sites).
+ R8 loader reads  : the legacy loader reads from raman_efficiency only the keys the conversion carries.
 """
 import ast
 
@@ -577,5 +578,40 @@ def stmt_target(node):
         cur = getattr(cur, '_parent', None)
     return ast.unparse(cur.targets[0])[:40] if cur is not None else '?'
 
+
+def r8_loader_reads(ctx):
+    """R8: the legacy loader reads from a library fibre's raman_efficiency only what the legacy <-> YANG conversion carries
+    (cr, frequency_offset): a key the loader honours but the converter drops would make the two forms of one library differ"""
+    repo = ctx.repo
+    fib = repo.module('gnpy.tools.json_io').classes.get('Fiber')
+    if fib is None:
+        raise AnchorMissing('json_io.Fiber')
+    f = fib.methods['__init__']
+    branch = [n for n in walk_no_nested(f.node) if isinstance(n, ast.If) and ast.unparse(n.test).replace(' ', '') == "'raman_efficiency'inkwargs"]
+    if len(branch) != 1:
+        raise CannotAnalyse('json_io.Fiber.__init__: raman_efficiency branch')
+    dvar = [s.targets[0].id for s in branch[0].body if isinstance(s, ast.Assign) and ast.unparse(s.value) == "kwargs['raman_efficiency']"]
+    carried = set()
+    for nm in ('convert_raman_efficiency', 'convert_back_raman_efficiency'):
+        g = repo.func(UTIL, nm)
+        for d in ast.walk(g.node):
+            if isinstance(d, ast.Dict):
+                carried |= {k.value for k in d.keys if isinstance(k, ast.Constant)}
+            if isinstance(d, ast.Call) and isinstance(d.func, ast.Attribute) and d.func.attr in ('pop', 'get') and d.args and isinstance(d.args[0], ast.Constant):
+                carried.add(d.args[0].value)
+    reads = set()
+    if dvar:
+        for n in [x for s in branch[0].body for x in ast.walk(s)]:
+            if isinstance(n, ast.Call) and isinstance(n.func, ast.Attribute) and n.func.attr in ('pop', 'get', 'setdefault') and \
+                    ast.unparse(n.func.value) == dvar[0] and n.args and isinstance(n.args[0], ast.Constant):
+                reads.add(n.args[0].value)
+            if isinstance(n, ast.Subscript) and isinstance(n.ctx, ast.Load) and ast.unparse(n.value) == dvar[0] and isinstance(n.slice, ast.Constant):
+                reads.add(n.slice.value)
+    extra = sorted(reads - carried)
+    ctx.check('R8.loader-reads', site(f, branch[0]), bool(dvar) and not extra and 'cr' in reads, key(f, 'raman-efficiency-reads'),
+              f'the legacy loader reads {extra} from raman_efficiency, which the legacy <-> YANG conversion does not carry: the same library '
+              'loads differently in its two forms', f'reads {sorted(reads)}; carried {sorted(carried)}')
+    ctx.need('R8.loader-reads', 1)
+
 RULES = [('R2.accumulate', r2b_accumulators), ('R1.pairing', r1_pairing), ('R2.siblings', r2_siblings), ('R3.precision', r3_precision),
-         ('R4.loaders', r4_loaders), ('R5.aliases', r5_aliases), ('R6.no-value-filter', r6_no_value_filter), ('R7.range-round-trip', r7_range_round_trip)]
+         ('R4.loaders', r4_loaders), ('R5.aliases', r5_aliases), ('R6.no-value-filter', r6_no_value_filter), ('R7.range-round-trip', r7_range_round_trip), ('R8.loader-reads', r8_loader_reads)]
